@@ -53,7 +53,8 @@ pub async fn resolve(ctx: &Context<'_>, id: &str, field: &str) -> J {
     if let Some(g) = w.get("gate").and_then(|g| g.as_u64()) {
         if g != 0 { let _ = req.gate(g).await; }
     }
-    req.event(json!({"ev": "finish", "obj": id, "field": field, "path": path_of(ctx), "call": call}));
+    let items = w.get("items").and_then(|i| i.as_array()).map(|a| a.len() as i64).unwrap_or(-1);
+    req.event(json!({"ev": "finish", "obj": id, "field": field, "path": path_of(ctx), "call": call, "items": items}));
     w
 }
 
@@ -106,7 +107,7 @@ impl Guard for NoGuard {
 
 #[Object]
 impl A {
-    async fn id(&self) -> ID { ID(self.0.clone()) }
+    async fn id(&self, ctx: &Context<'_>) -> ID { let _ = resolve(ctx, &self.0, "id").await; ID(self.0.clone()) }
     async fn label(&self, ctx: &Context<'_>) -> Option<Result<String>> { opt(&resolve(ctx, &self.0, "label").await) }
     async fn peer(&self, ctx: &Context<'_>) -> Option<Result<Node>> { opt(&resolve(ctx, &self.0, "peer").await) }
     async fn n(&self, ctx: &Context<'_>) -> Option<Result<i32>> { opt(&resolve(ctx, &self.0, "n").await) }
@@ -134,7 +135,7 @@ impl A {
 
 #[Object]
 impl B {
-    async fn id(&self) -> ID { ID(self.0.clone()) }
+    async fn id(&self, ctx: &Context<'_>) -> ID { let _ = resolve(ctx, &self.0, "id").await; ID(self.0.clone()) }
     async fn label(&self, ctx: &Context<'_>) -> Option<Result<String>> { opt(&resolve(ctx, &self.0, "label").await) }
     async fn peer(&self, ctx: &Context<'_>) -> Option<Result<Node>> { opt(&resolve(ctx, &self.0, "peer").await) }
     async fn b(&self, ctx: &Context<'_>) -> Option<Result<bool>> { opt(&resolve(ctx, &self.0, "b").await) }
